@@ -5,6 +5,7 @@ package main
 // decided by dominance and use-def analyses over the SSA of the repository.
 
 import (
+	"go/constant"
 	"fmt"
 	"go/types"
 	"sort"
@@ -434,14 +435,17 @@ func (e *Engine) pipelineObligations(prop string) []*Oblig {
 	switch prop {
 	case "C10":
 		out = append(out, e.writerFlush(prop, "/apps/rtcmfilter", "rtcmfilter")...)
+		out = append(out, e.sinkDistinct(prop, "/apps/rtcmfilter", "rtcmfilter")...)
 		out = append(out, e.configMapping(prop, "/apps/rtcmfilter", "rtcmfilter")...)
 	case "C11":
 		out = append(out, e.writerFlush(prop, "/apps/rtcmfilter", "rtcmfilter")...)
 		out = append(out, e.writerFlush(prop, "/apps/displayrtcm3", "displayrtcm3")...)
 	case "C16":
 		out = append(out, e.writerFlush(prop, "/apps/rtcmlogger", "rtcmlogger")...)
+		out = append(out, e.sinkDistinct(prop, "/apps/rtcmlogger", "rtcmlogger")...)
 	case "C19":
 		out = append(out, e.writerFlush(prop, "/apps/proxy", "the proxy packages")...)
+		out = append(out, e.handoverFresh(prop)...)
 	}
 	switch prop {
 	case "C07", "C15":
@@ -458,7 +462,8 @@ func (e *Engine) pipelineObligations(prop string) []*Oblig {
 		out = append(out, e.lockRelease(prop, fns, "the proxy packages")...)
 	}
 	switch prop {
-	case "C18", "C19":
+	case "C18", "C19", "C15":
+		// (C15: the messages held for the status page are displayed by concurrent readers)
 		out = append(out, e.lockHeld(prop)...)
 	case "C16":
 		out = append(out, e.joinObligations(prop, []string{"github.com/goblimey/go-ntrip/apps/rtcmlogger.start"})...)
@@ -988,6 +993,10 @@ func (e *Engine) writerFlush(prop string, pkgFrag string, what string) []*Oblig 
 						case *ssa.Defer:
 							if isFlushOf(&x.Call, w) {
 								deferred = true
+							} else if deferred && isCompletionSignal(&x.Call) {
+								// deferred calls run last-in-first-out: a completion signal deferred after the flush is
+								// given before the flush runs, so whoever waits for it can go on (and exit) too early
+								problems = append(problems, fmt.Sprintf("%s: %s defers a completion signal after deferring the flush of the bufio.Writer created at %s; deferred calls run in reverse order, so the signal is given before the buffered output is written", e.pos(x), fn.Name(), e.pos(ins)))
 							}
 						case *ssa.Return:
 							if !deferred {
@@ -1012,6 +1021,157 @@ func (e *Engine) writerFlush(prop string, pkgFrag string, what string) []*Oblig 
 	return []*Oblig{structOblig("writer-flush/"+what, "writer-flush",
 		fmt.Sprintf("every bufio.Writer created in %s (%d) is flushed before the function returns or the process exits", what, n),
 		[]string{prop}, problems)}
+}
+
+// handoverFresh: a buffer handed to the report feed (Record*Buffer keeps the pointer it is given; the
+// status page reads it later, under the feed's lock) must not be reused by the relay loop: when the
+// hand-over happens in a loop, the buffer variable and the slice stored in it are created in the same
+// iteration, not once before the loop.
+func (e *Engine) handoverFresh(prop string) []*Oblig {
+	var problems []string
+	n := 0
+	reachable := func(from, to *ssa.BasicBlock) bool {
+		seen := map[*ssa.BasicBlock]bool{}
+		stack := append([]*ssa.BasicBlock(nil), from.Succs...)
+		for len(stack) > 0 {
+			b := stack[len(stack)-1]
+			stack = stack[:len(stack)-1]
+			if seen[b] {
+				continue
+			}
+			seen[b] = true
+			if b == to {
+				return true
+			}
+			stack = append(stack, b.Succs...)
+		}
+		return false
+	}
+	for _, fn := range e.repoFunctions() {
+		if fn.Pkg == nil || !strings.Contains(fn.Pkg.Pkg.Path(), "/apps/proxy") {
+			continue
+		}
+		for _, b := range fn.Blocks {
+			for _, ins := range b.Instrs {
+				c, ok := ins.(*ssa.Call)
+				if !ok {
+					continue
+				}
+				callee := c.Call.StaticCallee()
+				if callee == nil || callee.Pkg == nil || !strings.HasSuffix(callee.Pkg.Pkg.Path(), "/reportfeed") || !strings.HasPrefix(callee.Name(), "Record") || !strings.HasSuffix(callee.Name(), "Buffer") || len(c.Call.Args) < 2 {
+					continue
+				}
+				n++
+				if !reachable(b, b) {
+					continue // not in a loop: handed over once
+				}
+				var defs []ssa.Instruction
+				switch v := c.Call.Args[1].(type) {
+				case *ssa.Alloc:
+					defs = append(defs, v)
+					if v.Referrers() != nil {
+						for _, r := range *v.Referrers() {
+							if st, ok := r.(*ssa.Store); ok && st.Addr == v {
+								if d, ok := st.Val.(ssa.Instruction); ok {
+									defs = append(defs, d)
+								}
+							}
+						}
+					}
+				case ssa.Instruction:
+					defs = append(defs, v)
+				default:
+					problems = append(problems, fmt.Sprintf("%s: %s hands a buffer that is not a local variable to %s in a loop", e.pos(ins), fn.Name(), callee.Name()))
+				}
+				for _, d := range defs {
+					if d.Block() != b && !reachable(b, d.Block()) {
+						problems = append(problems, fmt.Sprintf("%s: %s hands the same buffer (created once at %s, before the loop) to %s in every iteration; the report feed keeps the pointer, so the next read overwrites what the status page shows", e.pos(ins), fn.Name(), e.pos(d), callee.Name()))
+						break
+					}
+				}
+			}
+		}
+	}
+	return []*Oblig{structOblig("handover-fresh/proxy", "spawn-disjoint",
+		fmt.Sprintf("every buffer the relay loops hand to the report feed (%d hand-overs) is created in the iteration that hands it over", n),
+		[]string{prop}, problems)}
+}
+
+// sinkDistinct: the daily log files an application opens have distinct names unless they are opened on
+// the same directory setting - two dailylogger.New calls with the same constant prefix and suffix but
+// different directory expressions write to one file as soon as the two directories coincide (a record
+// that must hold exactly the input would then also receive the other log's lines).
+func (e *Engine) sinkDistinct(prop string, pkgFrag string, what string) []*Oblig {
+	type sink struct {
+		pos, dir, name string
+	}
+	var sinks []sink
+	var problems []string
+	constStr := func(v ssa.Value) (string, bool) {
+		if c, ok := v.(*ssa.Const); ok && c.Value != nil && c.Value.Kind() == constant.String {
+			return constant.StringVal(c.Value), true
+		}
+		return "", false
+	}
+	dirOf := func(v ssa.Value) string {
+		if u, ok := v.(*ssa.UnOp); ok && u.Op.String() == "*" {
+			if fa, ok := u.X.(*ssa.FieldAddr); ok {
+				if st, ok := derefType(fa.X.Type()).Underlying().(*types.Struct); ok {
+					return "field " + st.Field(fa.Field).Name()
+				}
+			}
+		}
+		if s, ok := constStr(v); ok {
+			return "constant " + s
+		}
+		return "expression " + v.Name() + " in " + v.Parent().Name()
+	}
+	for _, fn := range e.repoFunctions() {
+		if fn.Pkg == nil || !strings.Contains(fn.Pkg.Pkg.Path(), pkgFrag) {
+			continue
+		}
+		for _, b := range fn.Blocks {
+			for _, ins := range b.Instrs {
+				c, ok := ins.(*ssa.Call)
+				if !ok {
+					continue
+				}
+				callee := c.Call.StaticCallee()
+				if callee == nil || callee.Pkg == nil || !strings.HasSuffix(callee.Pkg.Pkg.Path(), "/dailylogger") || callee.Name() != "New" || len(c.Call.Args) != 3 {
+					continue
+				}
+				pre, ok1 := constStr(c.Call.Args[1])
+				suf, ok2 := constStr(c.Call.Args[2])
+				if !ok1 || !ok2 {
+					problems = append(problems, fmt.Sprintf("%s: %s opens a daily log whose file name is not a constant pattern", e.pos(ins), fn.Name()))
+					continue
+				}
+				sinks = append(sinks, sink{e.pos(ins), dirOf(c.Call.Args[0]), pre + "<date>" + suf})
+			}
+		}
+	}
+	for i := range sinks {
+		for j := i + 1; j < len(sinks); j++ {
+			if sinks[i].name == sinks[j].name && sinks[i].dir != sinks[j].dir {
+				problems = append(problems, fmt.Sprintf("%s and %s: two daily logs named %s are opened on different directory settings (%s, %s); they are one file whenever the two settings name the same directory", sinks[i].pos, sinks[j].pos, sinks[i].name, sinks[i].dir, sinks[j].dir))
+			}
+		}
+	}
+	return []*Oblig{structOblig("sink-distinct/"+what, "spawn-disjoint",
+		fmt.Sprintf("the daily log files %s opens (%d) have distinct names unless opened on the same directory setting", what, len(sinks)),
+		[]string{prop}, problems)}
+}
+
+// isCompletionSignal: close(ch) or (*sync.WaitGroup).Done - what a goroutine does to tell its
+// joiner that it has finished.
+func isCompletionSignal(cc *ssa.CallCommon) bool {
+	if b, ok := cc.Value.(*ssa.Builtin); ok && b.Name() == "close" {
+		return true
+	}
+	if c := cc.StaticCallee(); c != nil && c.Pkg != nil && c.Pkg.Pkg.Path() == "sync" && c.Name() == "Done" {
+		return true
+	}
+	return false
 }
 
 // ---------------------------------------------------------------- config-mapping
